@@ -345,7 +345,9 @@ class CPreProcessor:
         # Process the tokens:
         token = self.next_token()
         while token:
-            if token.first and token.typ == "#":
+            # Note that a '#' which results from macro expansion (it has a
+            # hideset) does not start a directive.
+            if token.first and token.typ == "#" and not token.hideset:
                 # We are inside a directive!
                 yield from self.handle_directive(token.loc)
 
